@@ -274,9 +274,9 @@ def d3(ctx, F):
             if any(op_local(a) in bufvals and "&mut" in (c.arg_tys[k] if k < len(c.arg_tys) else "") for k, a in enumerate(c.args)):
                 touching.append(c)
         if side == "encode":
-            ctx.floor("C05.D3.limit-enforced.encode-writes", len(touching), 4)
+            ctx.floor("C05.D3.limit-enforced.encode-writes", len(touching), 1)
         else:
-            ctx.floor("C05.D3.limit-enforced.decode-buffer-ops", len(touching), 4)
+            ctx.floor("C05.D3.limit-enforced.decode-buffer-ops", len(touching), 1)
         for c in touching:
             dom = b.dominates(cont, c.bb)
             ctx.check(dom, "C05.D3.limit-enforced", "%s:unvalidated:%s" % (side, strip_generics(c.callee)),
@@ -419,6 +419,7 @@ def d5(ctx, F):
     w = F.body("selium_protocol::utils::encode_message_batch")
     r = F.body("selium_protocol::utils::decode_message_batch")
     ctx.touch(w, r)
+    w, r = F.inlined(w), F.inlined(r)        # per-element helpers (put_message / take_message ..) are looked through
     wo, ro = wire_ops(w, F), wire_ops(r, F)
     ws = [(a, b, c) for a, b, c, _ in wo]
     rs = [(a, b, c) for a, b, c, _ in ro]
@@ -446,7 +447,7 @@ def d5_guard_exactness(ctx, F):
     """every early exit of the batch reader that compares the bytes remaining with a needed amount must exit exactly when
     need > remaining (strict): `<=`/`>=` forms reject well-formed batches whose last element fits exactly (e.g. a trailing empty message)."""
     from .. import panics
-    r = F.body("selium_protocol::utils::decode_message_batch")
+    r = F.inlined(F.body("selium_protocol::utils::decode_message_batch"))
     lens = panics.len_derived(r)
     reads = [c for c in r.calls() if strip_generics(c.callee) in BE_READ or strip_generics(c.callee) in ("bytes::bytes::Bytes::split_to", "bytes::buf::buf_impl::Buf::copy_to_bytes", "alloc::vec::Vec::with_capacity")]
     n = 0
